@@ -421,6 +421,28 @@ func runC04(c *Ctx) {
 				}
 			}
 		}
+		// keys whose continuation tokens need the URL-safe alphabet ('+' and '/' in standard base64),
+		// multi-byte keys, keys with characters that must be escaped in a query
+		{
+			odd := []string{"aa0", "ab~", "ab?x", "ac>", "ad\x7f", "ü~ö", "q?~>", "zz zz", "z&=z"}
+			for _, k := range odd {
+				l, o = r.Put(bucket, "tok/"+k, nil, []byte(k))
+				r.judgeProj(l, o, "c04:put-odd", dropVid, nil)
+			}
+			var full []string
+			for _, k := range odd {
+				full = append(full, "tok/"+k)
+			}
+			for mk := 1; mk <= 3; mk++ {
+				for _, v2 := range []bool{false, true} {
+					c04Walk(c, r, bucket, full, "tok/", "", mk, "", v2)
+					c04Walk(c, r, bucket, full, "tok/", "/", mk, "", v2)
+				}
+			}
+			for _, k := range odd {
+				c04Walk(c, r, bucket, full, "tok/", "", 2, "tok/"+k, true)
+			}
+		}
 		// crossing the 1000 clamp
 		if c.Thorough() {
 			for i := 0; i < 1205; i++ {
